@@ -357,6 +357,170 @@ def r3_phase_order(c, facts):
                 c.bad(R, 'order:substitute<%s' % r, '%s reads tags but is not dominated by substitute()' % r)
 
 
+def _origin_chain(ctx, e, depth=0, out=None):
+    """all (wrapper, accessor) pairs a node expression is derived through (receiver chains, bindings, loop desugaring)"""
+    import positions as PS
+    out = set() if out is None else out
+    if e is None or depth > 24:
+        return out
+    k = e['k']
+    if k in ('addr', 'unary', 'cast'):
+        _origin_chain(ctx, e['e'], depth + 1, out)
+    elif k == 'mcall':
+        m = PS.WRAP.search(e['recv']['ty'])
+        if m:
+            out.add((m.group(1), e['name']))
+        _origin_chain(ctx, e['recv'], depth + 1, out)
+    elif k == 'call':
+        for a in e['args'][:1]:
+            _origin_chain(ctx, a, depth + 1, out)
+    elif k == 'match' and e.get('src') == 'TryDesugar':
+        _origin_chain(ctx, e['scrut'], depth + 1, out)
+    elif k == 'path' and e['p'].get('res') == 'local':
+        src = ctx.bind.get(e['p']['hid'])
+        if src is not None:
+            if src[0] in ('let', 'arm'):
+                _origin_chain(ctx, src[1], depth + 1, out)
+            elif src[0] == 'cparam':
+                for parent, lab in reversed(src[3]):
+                    if parent['k'] == 'mcall':
+                        _origin_chain(ctx, parent['recv'], depth + 1, out)
+                        break
+    return out
+
+
+def _child_index(parent, child):
+    from facts import hir_children
+    for i, (ch, lab) in enumerate(hir_children(parent)):
+        if ch is child:
+            return i
+    return -1
+
+
+def r9_check_total(c, facts, rule='C01.R9'):
+    """A predicate of a check_* function may be skipped, on a succeeding path, only by a condition about its own subject
+    (the position is absent: `if let Some(body) = content.body()`, an exhausted iterator) or by a guard on one of the
+    operator/kind enums (those guards are compared with the evaluator by AGREE-POS). Conditions are taken from the lexical
+    nesting of the predicate and from every explicit `return Ok(..)` that precedes it."""
+    import positions as PS
+    from facts import hir_children
+    R = c.rule(rule, 'CHECK-TOTAL: a kind check is skipped on a succeeding path only when its own position is absent or under an operator/kind guard')
+    n = npred = 0
+
+    def cond_of(parent, lab):
+        """(expression whose value decides, scrutinee type) for a conditional edge label, else None"""
+        if lab[0] == 'arm':
+            return lab[2]['scrut']
+        if lab[0] in ('then', 'else'):
+            cnd = lab[1]['cond']
+            return cnd['init'] if cnd['k'] == 'let' else cnd
+        if lab[0] == 'els':
+            return lab[1]['init']
+        return None
+
+    def is_enum_guard(e):
+        return any(x in e.get('ty', '') for x in PS.GUARD_ENUMS) or (e['k'] == 'binary' and any(x in (e['l'].get('ty', '') + e['r'].get('ty', '')) for x in PS.GUARD_ENUMS))
+
+    for q, l in sorted(facts.by_qname.items()):
+        if not q.startswith('oal_compiler::typecheck::check_') or '{closure' in q:
+            continue
+        fn = l[0]
+        n += 1
+        ctx = PS.Pos(fn)
+        preds, exits = [], []
+        for e, anc in hir_walk(fn.hir['body']):
+            if e['k'] == 'mcall' and e['m'].startswith('typecheck::TagWrap::is_'):
+                preds.append((e, anc))
+            if e['k'] == 'ret' and e.get('e') and e['e']['k'] == 'call' and variant_of(e['e']['f']) == 'Ok':
+                exits.append((e, anc))
+        short = q.split('::')[-1]
+        for pe, panc in preds:
+            npred += 1
+            subj = pe['recv']
+            src = ctx.local_src(subj)
+            if src and src[0] == 'let':
+                subj = src[1]
+            if subj['k'] == 'call' and (callee_def(subj) or '').endswith('get_tag'):
+                subj = subj['args'][0]
+            chain = _origin_chain(ctx, subj)
+            conds = []
+            for parent, lab in panc:
+                ce = cond_of(parent, lab)
+                if ce is not None and not (lab[0] == 'arm' and lab[2].get('src') == 'TryDesugar'):
+                    conds.append(('nesting', ce))
+            for re_, ranc in exits:
+                i = 0
+                while i < len(ranc) and i < len(panc) and ranc[i][0] is panc[i][0] and ranc[i][1] == panc[i][1]:
+                    i += 1
+                if i >= len(ranc) or i >= len(panc) or ranc[i][0] is not panc[i][0]:
+                    continue
+                lca = ranc[i][0]
+                rch = ranc[i + 1][0] if i + 1 < len(ranc) else re_
+                pch = panc[i + 1][0] if i + 1 < len(panc) else pe
+                in_loop = any(lab[0] == 'loop' for _, lab in ranc[:i + 1])
+                if lca['k'] in ('match', 'if') and ranc[i][1][0] in ('arm', 'then', 'else') and panc[i][1][0] in ('arm', 'then', 'else'):
+                    if not in_loop:
+                        continue
+                elif not in_loop and _child_index(lca, rch) > _child_index(lca, pch):
+                    continue
+                cs = [cond_of(pa, la) for pa, la in ranc[i:]]
+                cs = [x for x in cs if x is not None]
+                if not cs:
+                    conds.append(('unconditional return Ok at line %d' % re_['ln'], None))
+                conds.extend(('return Ok at line %d' % re_['ln'], x) for x in cs)
+            badc = []
+            for why, ce in conds:
+                if ce is None:
+                    badc.append(why)
+                    continue
+                if is_enum_guard(ce):
+                    continue
+                cch = _origin_chain(ctx, ce)
+                if cch & chain:
+                    continue
+                if not cch and ce['k'] in ('unary', 'binary', 'mcall', 'call') and 'TagWrap' in str(ce.get('m', '')) + str(ce.get('ty', '')):
+                    continue
+                badc.append('%s on %s' % (why, sorted('%s::%s' % x for x in cch) or ce['k']))
+            inst = {'fn': q, 'pred': pe['name'], 'line': pe['ln'], 'subject': sorted('%s::%s' % x for x in chain), 'conditions': len(conds)}
+            if badc:
+                c.bad(R, '%s:%s:skipped-by-unrelated-condition' % (short, pe['name']), '%s: the check %s on %s can be skipped while the function succeeds, by a condition that is not about that position (%s): programs violating the skipped rule are accepted and the evaluator panics'
+                      % (q, pe['name'], inst['subject'], '; '.join(badc)), **inst)
+            else:
+                c.ok(R, inst)
+    c.floor(R, 'check_* functions', n, 12)
+    c.floor(R, 'kind predicates in check_* functions', npred, 16)
+
+
+def r10_args_agree(c, facts, rule='C01.R10'):
+    """the argument list typed by constrain and the one bound by eval_application are produced by the same accessor"""
+    import mirflow as MF
+    R = c.rule(rule, 'ARGS-AGREE: inference and evaluation take an application\'s arguments from the same accessor')
+    cons = c.anchor(R, 'oal_compiler::inference::constrain')
+    ev = c.anchor(R, 'oal_compiler::eval::eval_application')
+    cidx = MF.defs_index(cons)
+    ok1 = False
+    for b, blk in cons.blocks():
+        for s in blk['stmts']:
+            if s['s'] == 'assign' and s['rv']['r'] == 'aggr' and s['rv'].get('adt', '').endswith('FuncTag'):
+                op = s['rv']['ops'][s['rv']['fields'].index('bindings')]
+                if 'l' in op:
+                    names = {P.strip(n).split('::')[-1] for n, _, _ in MF.slice_back(cons, op['l'], cidx)['calls']}
+                    if 'arguments' in names:
+                        ok1 = True
+    n_args = len(P.call_blocks(ev, 'Application::arguments'))
+    if ok1 and n_args >= 2:
+        c.ok(R, {'constrain': 'Func(bindings = tags of app.arguments())', 'eval_application': 'binds app.arguments() (%d sites)' % n_args})
+    else:
+        c.bad(R, 'argument-lists-differ', 'constrain types an application from %s while eval_application binds app.arguments() at %d site(s): an argument counted by one side only makes an accepted program panic on a missing binding'
+              % ('app.arguments()' if ok1 else 'something other than app.arguments()', n_args))
+    acc = c.anchor(R, 'oal_syntax::parser::Application::arguments')
+    names = [P.strip(callee_of(t)['def']).split('::')[-1] for b, t in acc.calls() if callee_of(t)]
+    if 'filter_map' in names and 'skip' in names:
+        c.ok(R, {'Application::arguments': 'children().skip(1).filter_map(Terminal::cast)'})
+    else:
+        c.bad(R, 'arguments-accessor-shape', 'Application::arguments is no longer children().skip(1).filter_map(Terminal::cast) (found %s)' % names)
+
+
 def run(c, facts):
     c.rule('C01.R0', 'anchors: Tag, Expr, inference::tag, eval_any, constrain present')
     T = K.Tables(c, facts)
@@ -390,6 +554,8 @@ def run(c, facts):
     c.run(lambda c: I.occurs_before_union(c, facts, R7))
     c.run(lambda c: I.arity(c, facts, R7))
     c.run(lambda c: I.occurs_existential(c, facts, R7))
+    c.run(lambda c: r9_check_total(c, facts))
+    c.run(lambda c: r10_args_agree(c, facts))
     R8 = c.rule('C01.R8', 'NAMING and GRAPH-COMPLETE (shared with C09.R2, C09.R4): distinct definitions never share an implicit name; every use adds a dependency edge')
     c.shared(R8, c09.r2_scoped_id, 'C09.R2', facts)
     c.shared(R8, c09.r4_graph_complete, 'C09.R4', facts)
